@@ -17,7 +17,7 @@ FAULT = "fault_enumeration"
 PROPS = {
     "C07": {
         "level": EXPL,
-        "plan": [{"engine": "pure", "timeout": {"quick": 600, "thorough": 3000}}, {"engine": "shipsim2", "timeout": T_SIM}],
+        "plan": [{"engine": "pure", "thorough_scale": 4, "timeout": {"quick": 600, "thorough": 3000}}, {"engine": "shipsim2", "thorough_scale": 3, "timeout": T_SIM}],
         "rule": "documents (top level an object) from a seeded grammar generator (depth<=6, width<=6, unique member names, "
                 "number literals as text, strings rich in brackets/quotes/escapes/multi-byte runes, empty containers) plus mutated "
                 "real SPINE datagrams; a case is distinct by its sorted feature set (empty-array, string-bracket-seq, num-big, ...); "
@@ -30,7 +30,7 @@ PROPS = {
     },
     "C16": {
         "level": EXPL,
-        "plan": [{"engine": "pure", "timeout": {"quick": 600, "thorough": 3000}}],
+        "plan": [{"engine": "pure", "thorough_scale": 10, "timeout": {"quick": 600, "thorough": 3000}}],
         "rule": "service configurations from a seeded generator (fields 0..200 bytes, '=', ';', ':', multi-byte runes straddling byte 32, "
                 "invalid UTF-8, category lists, both auto-accept values, ports 0..65535); distinct by the set of (field, feature) pairs; "
                 "oracle: announced TXT -> library parser -> second manager's entry, and an independent strict QR parser",
@@ -53,7 +53,7 @@ PROPS = {
     },
     "C03": {
         "level": EXPL,
-        "plan": [{"engine": "shipsim2", "perturb": True, "perturb_mode": "1", "perturb_scale": 0.3, "timeout": T_SIM}],
+        "plan": [{"engine": "shipsim2", "perturb": True, "perturb_mode": "1", "perturb_scale": 0.3, "thorough_scale": 5, "timeout": T_SIM}],
         "rule": "two real endpoints (client/server role) joined by harness FIFO queues in a synctest bubble; configuration grid (trust mode x user "
                 "approve/cancel/never at a seeded virtual time x waiting allowed on either side x known/unknown/wrong SHIP ids) x seeded interleaving of "
                 "deliveries, close propagation and timer expiries; timely mode is checked against the outcome table of DESIGN.md appendix D, arbitrary mode "
@@ -113,7 +113,7 @@ PROPS = {
     },
     "C14": {
         "level": EXPL,
-        "plan": [{"engine": "timers", "perturb": True, "perturb_mode": "1", "perturb_scale": 0.5, "timeout": T_SIM}],
+        "plan": [{"engine": "timers", "perturb": True, "perturb_mode": "1", "perturb_scale": 0.5, "thorough_scale": 3, "timeout": T_SIM}],
         "rule": "programs over {arm(d), stop, yield, quiescence wait, sleep} issued through the verif timer wrappers on 1..64 real connections per bubble "
                 "(GOMAXPROCS 1..8), each parked in the CMI wait state where a timeout is visible as an error report; the harness model knows when the most "
                 "recently armed, unstopped timer is due (virtual time, exact); plus protocol flows with zero-delay answers followed by 15 idle minutes "
@@ -136,7 +136,7 @@ PROPS = {
     },
     "C12": {
         "level": EXPL,
-        "plan": [{"engine": "wsconn", "perturb": True, "perturb_mode": "sleep", "perturb_scale": 0.5, "timeout": T_SIM}],
+        "plan": [{"engine": "wsconn", "perturb": True, "perturb_mode": "sleep", "perturb_scale": 0.5, "thorough_scale": 4, "timeout": T_SIM}],
         "rule": "real time: 1..32 writer goroutines x <=16 unique messages on one connection, peer reading promptly / slowly / not at all (full queue), closing event "
                 "(local close with/without reason, peer close frame, peer EOF, failing k-th transport write, none) fired after a seeded number of accepted writes; every "
                 "write call is recorded (call/return on one monotonic clock, result, recovered panic, closed-flag seen before the call); oracle: no panic, no write parked "
@@ -148,7 +148,7 @@ PROPS = {
     },
     "C17": {
         "level": EXPL,
-        "plan": [{"engine": "mdnssim", "perturb": True, "perturb_mode": "1", "perturb_scale": 0.3, "timeout": T_SIM}],
+        "plan": [{"engine": "mdnssim", "perturb": True, "perturb_mode": "1", "perturb_scale": 0.3, "thorough_scale": 3, "timeout": T_SIM}],
         "rule": "real MdnsManager + real (not started) Hub + recording application in a synctest bubble; resolver event histories <= 40 over 1-5 services x 1-4 addresses "
                 "(IPv4, IPv6 global, IPv6 link-local, duplicates inside one event), adds, removes in Avahi and zeroconf shape, invalid records (each mandatory key missing, txtvers 2, "
                 "non-boolean register, own SKI, nil/empty map), bursts without settling so that report goroutines pile up, GOMAXPROCS 1/4; oracle: the manager's entries equal a "
@@ -159,7 +159,7 @@ PROPS = {
     },
     "C19": {
         "level": EXPL,
-        "plan": [{"engine": "mdnssim", "timeout": T_SIM}],
+        "plan": [{"engine": "mdnssim", "thorough_scale": 8, "timeout": T_SIM}],
         "rule": "real AvahiProvider against a scripted fake Avahi daemon (avahi.ServerInterface) in a synctest bubble: histories of 2-12 operations over daemon down / up with 0-3 failing "
                 "attempts at setup, API version or browser creation / announce(txt_i) / unannounce / shutdown / second shutdown / start after shutdown / browse results / virtual gaps "
                 "around the 1 s retry tick; oracle at quiescence after the daemon is back: browser on the current session, exactly one committed entry group iff an announcement is active, "
